@@ -5,13 +5,25 @@ sys.path.insert(0, os.path.dirname(os.path.abspath(__file__)))
 import lbg, kcorr
 rep = json.load(open(os.path.join(lbg.LEAN_DIR, 'LbgVerif', 'Gen', 'gen_report.json')))['kernels']
 names = set(sys.argv[1].split(',')) if len(sys.argv) > 1 else None
-ks = kcorr.kernels_for(names=names)
+if len(sys.argv) > 1 and sys.argv[1].startswith('generation='):
+    # all kernels of one registry generation (kernels2.py is generation 1)
+    g_ = int(sys.argv[1].split('=')[1])
+    ks = [k for k in kcorr.kernels_for() if k.get('generation', 0) == g_]
+elif len(sys.argv) > 1 and sys.argv[1].startswith('group='):
+    ks = [k for k in kcorr.kernels_for() if k['group'] in sys.argv[1].split('=')[1].split(',')]
+else:
+    ks = kcorr.kernels_for(names=names)
 n = int(os.environ.get('N', '40'))
 stats, mis = kcorr.run_kernels(ks, rep, int(os.environ.get('VERIF_SEED', '0')), n, n, lbg.Driver())
 for k, s in sorted(stats.items()):
     flag = '' if not s['mismatch'] else '  <<<<<<'
+    if not s['cases'] and not s.get('untranslated'):
+        flag += '  VACUOUS (every real call raised)'
     print('%-45s cases=%4d some=%4d raise=%3d border=%2d mism=%3d maxrel=%.2e%s' % (
         k, s['cases'], s['some'], s['skipped_raise'], s['borderline'], s['mismatch'], s['max_rel_diff'], flag))
+tot = [sum(s[k] for s in stats.values()) for k in ('cases', 'mismatch', 'borderline')]
+print('TOTAL kernels=%d cases=%d mismatches=%d borderline=%d seed=%s' % (
+    len(stats), tot[0], tot[1], tot[2], os.environ.get('VERIF_SEED', '0')))
 seen = set()
 for m in mis:
     if m['kernel'] in seen: continue
